@@ -85,7 +85,11 @@ type MClaims struct {
 	Prof Prof
 	// Canon: canonical profile name of the claims implementation judging the
 	// set when it is not the built-in one (extension profiles); "" = Prof.Name().
-	Canon     string
+	Canon string
+	// ZeroCanon: the object is a plain struct value whose CanonicalProfile
+	// field was never set (struct-literal route only): the implementation
+	// then expects the empty name.
+	ZeroCanon bool
 	Profile   *string
 	ClientID  *int32
 	Lifecycle *uint16
@@ -136,6 +140,9 @@ func (c *MComp) Clone() *MComp {
 
 // CanonName is the profile name the judging implementation expects.
 func (m *MClaims) CanonName() string {
+	if m.ZeroCanon {
+		return ""
+	}
 	if m.Canon != "" {
 		return m.Canon
 	}
@@ -144,7 +151,7 @@ func (m *MClaims) CanonName() string {
 
 func (m *MClaims) Clone() *MClaims {
 	n := &MClaims{
-		Prof: m.Prof, Canon: m.Canon, Profile: clonePtr(m.Profile), ClientID: clonePtr(m.ClientID),
+		Prof: m.Prof, Canon: m.Canon, ZeroCanon: m.ZeroCanon, Profile: clonePtr(m.Profile), ClientID: clonePtr(m.ClientID),
 		Lifecycle: clonePtr(m.Lifecycle), ImplID: cloneBytesPtr(m.ImplID), BootSeed: cloneBytesPtr(m.BootSeed),
 		CertRef: clonePtr(m.CertRef), CompsNil: m.CompsNil, NoMeas: clonePtr(m.NoMeas),
 		InstID: cloneBytesPtr(m.InstID), VSI: clonePtr(m.VSI),
@@ -480,6 +487,9 @@ func (m *MClaims) ExpectValue(c Claim) string {
 func (m *MClaims) ClassVector() string {
 	var sb strings.Builder
 	sb.WriteString(m.Prof.String())
+	if m.ZeroCanon {
+		sb.WriteString(" zero-canonical-profile")
+	}
 	lenOf := func(p *[]byte) string {
 		if p == nil {
 			return "-"
